@@ -295,6 +295,9 @@ func aggEngine(r *core.Run) {
 			size = 1000 + rr.Intn(2000)
 		}
 		pool := 2 + rr.Intn(12)
+		if i%3 == 0 {
+			pool = 14 + rr.Intn(60) // many buckets (the bookkeeping grows), repeats arriving late
+		}
 		var pick []int
 		for k := 0; k < pool; k++ {
 			pick = append(pick, rr.Intn(n))
